@@ -5,6 +5,7 @@ import (
 	"strings"
 	"time"
 
+	"verif/internal/drive"
 	"verif/internal/gen"
 	"verif/internal/gt"
 	"verif/internal/mon"
@@ -41,6 +42,7 @@ func (c12) Plan(tier string, seed int64) []mon.Workload {
 		{Name: "datetime", N: 600 * m},
 		{Name: "xml", N: int64(len(c12Docs) * len(gen.XPaths) * 3), Exhaustive: true},
 		{Name: "sql", N: 300 * m},
+		{Name: "typed-captures", N: int64(len(c12CapBases) * len(c12CapTypes) * len(c12CapTypes)), Exhaustive: true},
 	}
 }
 
@@ -67,7 +69,39 @@ var c12Defs = [][2]string{{"p1", "[a-z]+"}, {"p2", "\\d+"}, {"p3", "%{p1}-%{p2}"
 var c12Groks = []string{"%{p1:w1} %{p2:n1:int}", "%{WORD:w1} %{INT:n1:int} %{NUMBER:x1:float} %{WORD:b1:bool}", "%{p3:both}", "%{p1:w1:str}\\s+%{p2:x1:float}",
 	"%{NOTSPACE:w1} %{NOTSPACE:n1:int}", "%{p4:any}", "%{IP:ip} %{WORD:u}", "%{GREEDYDATA:all}", "%{p2:n1:bool}", "%{WORD:message}", "%{nosuch:z}", "(?P<raw>\\d+)", "%{p5:z}"}
 
+// typed-captures (exhaustive): two grok calls in one script whose patterns
+// differ ONLY in the type annotation of the capture (none, str, string, int,
+// float, bool), in both orders, over five base patterns: each call stores its
+// capture with its own designated type.
+var c12CapBases = []string{"INT", "NUMBER", "WORD", "NOTSPACE", "tok"}
+var c12CapTypes = []string{"", ":str", ":string", ":int", ":float", ":bool"}
+
+func c12TypedCaptures(i int64) ([]*gt.T, *ref.Point) {
+	t2 := c12CapTypes[int(i)%len(c12CapTypes)]
+	i /= int64(len(c12CapTypes))
+	t1 := c12CapTypes[int(i)%len(c12CapTypes)]
+	base := c12CapBases[int(i)/len(c12CapTypes)]
+	text := "add_pattern(\"tok\", \"[0-9.]+|true\")\n" +
+		"ok1 = grok(_, \"%{" + base + ":cap" + t1 + "} rest\")\np(ok1, cap, get_key(cap))\n" +
+		"if true {\n  ok2 = grok(msg2, \"%{" + base + ":cap" + t2 + "} rest\")\n  p(ok2, cap, get_key(cap))\n}\n" +
+		"ok3 = grok(_, \"%{" + base + ":cap" + t1 + "} rest\")\np(ok3, cap, get_key(cap))\n"
+	o := drive.Parse("typed-captures", text)
+	if o.Err != nil {
+		panic("c12: typed-captures program does not parse: " + text + ": " + o.Err.Error())
+	}
+	l, err := gt.FromStmts(o.Stmts)
+	if err != nil {
+		panic(err)
+	}
+	msgs := []string{"404 rest", "15.5 rest", "true rest", "word rest"}
+	pt := ref.NewPoint("m", nil, map[string]any{"message": msgs[int(i)%len(msgs)], "msg2": msgs[(int(i)+1)%len(msgs)]}, time.Unix(1600000000, 0))
+	return gt.CloneStmts(l), pt
+}
+
 func (c12) build(c *mon.Ctx, workload string, i int64) ([]*gt.T, *ref.Point) {
+	if workload == "typed-captures" {
+		return c12TypedCaptures(i)
+	}
 	r := c.R
 	pt := ref.NewPoint("m", map[string]string{"tg": "abc 12"}, map[string]any{"message": c12Lines[r.Intn(len(c12Lines))], "num": int64(12), "b": "by"}, time.Unix(1600000000, 0))
 	subject := func() (*gt.T, []*gt.T) {
